@@ -39,6 +39,17 @@ PROPS = {
         not_claimed=["which lines are directives / malformed-directive recovery (lexer + generated parser)", "location preservation of surviving text (lexer cursor arithmetic is under C09's unit)",
                      "cross-file isolation is by ownership typing (symbols.clone() per file) - noted, no obligation"],
     ),
+    "C20": dict(
+        units=["visitor"],
+        claim="All twelve visit_with implementations of slicec/src/visitor.rs (real text) are verified to present, to ANY visitor, exactly the "
+              "event sequence tr_file/tr_struct/... written from the property: file, module, definitions in source order, containers before "
+              "contents, each type right after its owner followed by its nested element/key/value/success/failure types to any depth.",
+        trusted=["WeakPtr<T>::borrow returns the element the parser stored (utils/ptr_util.rs raw pointers: trusted, pure function of the pointer)",
+                 "TypeRef::concrete_type() (Deref + dyn dispatch) is a pure accessor (shim_concrete_type)",
+                 "type_depth_facts: nesting of sequence/dictionary/result types is finite (uninterpreted depth, one axiom)",
+                 "the AST has the ownership shape the structs describe (built by the parser); element internals (Identifier, Scope, Span, Attribute, DocComment...) are opaque"],
+        not_claimed=["that ValidatorVisitor's visit_x bodies do the right thing (C04)", "that the parser put every declared element into its owner's list (C02)"],
+    ),
     "C10": dict(
         units=["codec_wire", "wire_lemmas"],
         kani_quick=K_VARINT + K_FIXED,
@@ -91,6 +102,10 @@ NOT_APPLICABLE = {
 }
 
 MANIFEST_TEXT = {
+    "C20": dict(
+        level="Proof (Verus, unbounded): the twelve visit_with functions of visitor.rs - the repository's text - are verified, for an arbitrary Visitor whose visit_x methods each record one event, to produce exactly old trace ++ tr_<kind>(element), where tr_* is the traversal order written from the property (containers before contents, source order, type right after owner, nested types to any depth, unpatched references not descended). Exactly-once / nothing-skipped / nothing-foreign is the definition of tr_* over the ownership fields.",
+        design_ref="DESIGN.md section 7, C20", technique="Verus contracts with a ghost trace on the Visitor trait; loop invariants over prefixes; recursion by an assumed finite type-nesting measure",
+        note="Trusted: WeakPtr::borrow / concrete_type accessors (raw-pointer AST), finite type nesting, parser-built ownership lists. Element internals opaque."),
     "C06": dict(
         level="Proof (Verus, unbounded): Term/Expression/Conditional::evaluate and process_nodes - the repository's text, extracted on every run - are verified against a semantics written from the property (expr_val / select / run_nodes): first true branch wins and later #elif conditions are not consulted; #define/#undef act only when reached, left to right. Claim is the EVALUATION semantics; which lines are directives (lexer state machine, LALRPOP tables) and location bookkeeping are trusted.",
         design_ref="DESIGN.md section 7, C06", technique="Verus contracts on extracted real functions vs. spec functions; loop invariants; assumed finite-nesting measure",
